@@ -7,8 +7,9 @@
   * Memory is a set of `Cell`s: package-level variables (`global`), objects handed in by the caller
     (`supplied`, named by their Go type) and the fields of library instances (`own`).
   * `siteCells` resolves the target of a write site for a concrete instance (how it was constructed:
-    exported constructor + options): `o.endpoints.Authorization = e` lands on
-    `op.DefaultEndpoints.Authorization` because `NewProvider` initialises `endpoints` with that variable.
+    exported constructor + options): `o.endpoints.Authorization = e` lands on the instance's own `endpoints`
+    because `NewProvider` initialises that field with a copy; it would land on `op.DefaultEndpoints.Authorization`
+    if the constructor stored the package-level pointer itself (F-C20a, repaired).
   * `stepCells` is the may-write set of one program step (a construction or an API call),
     `StepRel`/`RunRel` the frame semantics of programs, `stepSegs` the access sequence a step contributes
     to a thread, `Machine` the interleaving semantics with mutexes.
